@@ -98,6 +98,17 @@ FsrIds ==
   \cup { FsrVec("FSR/id/bcd/" \o ToString(n), "id-bcdplus-len-" \o ToString(n), "C07", [B0 EXCEPT !.id = [enc |-> 1, vals |-> [i \in 1..n |-> (i * 3 + n) % 16]]]) : n \in 0..31 }
   \cup { FsrVec("FSR/id/p6/" \o ToString(n), "id-packed6-len-" \o ToString(n), "C07", [B0 EXCEPT !.id = [enc |-> 2, vals |-> [i \in 1..n |-> (i * 5 + n) % 64]]]) : n \in 0..31 }
   \cup { FsrVec("FSR/id/l1hi/" \o ToString(b), "id-latin1-high-bytes", "C20", [B0 EXCEPT !.id = [enc |-> 3, vals |-> <<65, b, 66>>]]) : b \in 128..255 }
+\* ID strings decoded into a record value that already held another ID string (every encoding to every encoding,
+\* longer to shorter, non-empty to empty): the characters must be those of the later record alone
+IdOf(enc, n) == [enc |-> enc, vals |-> [i \in 1..n |-> CASE enc = 1 -> (i * 3 + n) % 16 [] enc = 2 -> (i * 5 + n) % 64 [] OTHER -> 33 + ((i * 7 + n) % 90)]]
+FsrIdAfter ==
+  { LET ra == [FsrBase(Seed + 2) EXCEPT !.id = IdOf(ea, na)]
+        rb == [B0 EXCEPT !.id = IdOf(eb, nb)] IN
+    [id |-> "FSR/id-after/" \o ToString(ea) \o "-" \o ToString(na) \o "/" \o ToString(eb) \o "-" \o ToString(nb), prop |-> "C20", kind |-> "reuse",
+     layer |-> "FullSensorRecord", class |-> "id-after-" \o ToString(ea) \o "-to-" \o ToString(eb),
+     first |-> FsrEnc(ra), second |-> FsrEnc(rb), exp |-> [err |-> FALSE, value |-> FsrExpected(rb)]]
+    \* (a one-character 8-bit or unicode string is reserved by the specification: 43.15)
+    : ea \in 0..3, na \in {0, 2, 16, 31}, eb \in 0..3, nb \in {0, 2, 5, 31} }
 FsrShort == { [id |-> "FSR/short/" \o ToString(n), prop |-> "C07", kind |-> "decode", layer |-> "FullSensorRecord", class |-> "short",
                bytes |-> Take(FsrEnc(B0), n), exp |-> [err |-> TRUE]] : n \in 0..42 }
             \cup { [id |-> "FSR/shortid/" \o ToString(n), prop |-> "C07", kind |-> "decode", layer |-> "FullSensorRecord", class |-> "id-string-cut",
@@ -106,7 +117,7 @@ FsrShort == { [id |-> "FSR/short/" \o ToString(n), prop |-> "C07", kind |-> "dec
 Vectors == CASE Family = "prims" -> AnalogVecs \cup EntityVecs \cup BcdVecs \cup P6Vecs \cup L1Vecs \cup ShortStr \cup BcdByteVecs \cup RollVecs
              [] Family = "checksum" -> CksVecs
              [] Family = "fsrtwos" -> FsrTwos
-             [] Family = "fsr" -> FsrFields \cup FsrIds \cup FsrShort
+             [] Family = "fsr" -> FsrFields \cup FsrIds \cup FsrShort \cup FsrIdAfter
 ASSUME \A v \in Vectors : PrintT(<<"SCRIPT", ToJson(v)>>)
 ASSUME PrintT(<<"COUNT", ToJson([n |-> Cardinality(Vectors)])>>)
 =============================================================================
